@@ -219,6 +219,10 @@ def check(ctx):
                                       'densities are requested from the kernel although the value is zero')
         ctx.guard('R4', fsite(f), r4)
     _shared(ctx)
+    # under MPI the counters of non-zero and of finite evaluations travel through the reduction:
+    # they must come back in the slots they were packed into (shared with C04)
+    share(ctx, 'C04', 'R6/C04.', ['R5.pack_layout', 'R5.unpack'])
+
 
 
 def _shared(ctx):
